@@ -32,15 +32,20 @@ impl AbsIter {
 // R1b: `Box::new(E)` where E is an iterator struct under contract (or an already boxed iterator) becomes
 // `AbsIter::wrap(E)`: boxing does not change the sequence an iterator yields. What that sequence is — `remaining()` —
 // is NOT trusted: it is the function that the struct's `next` is verified to pop (units fixedrep, varrep, choice, ...).
+// `inv()` is the representation invariant under which the struct's `next` is verified (its precondition, re-established
+// as its postcondition); boxing requires it, so no iterator is handed out in a state its `next` was not verified for.
 pub trait IterView {
     spec fn remaining(&self) -> Seq<usize>;
+    spec fn inv(&self) -> bool;
 }
 impl IterView for AbsIter {
     open spec fn remaining(&self) -> Seq<usize> { self@ }
+    open spec fn inv(&self) -> bool { true }
 }
 impl AbsIter {
     #[verifier::external_body]
     pub fn wrap<T: IterView>(it: T) -> (r: AbsIter)
+        requires it.inv(),
         ensures r@ == it.remaining(),
     { unimplemented!() }
 }
